@@ -13,7 +13,7 @@ structure Hon (A : AEAD) (k : Bytes) (c0 : Nat) (sent : List Fr) (p : Nat) (sc :
   conn : conn = sealAll A k (c0 + p) (sent.drop p)
 
 theorem payload_take_succ (sent : List Fr) (p : Nat) (h : p < sent.length) :
-    payload (sent.take (p + 1)) = payload (sent.take p) ++ sent[p].1 := by
+    payload (sent.take (p + 1)) = payload (sent.take p) ++ sent[p] := by
   rw [List.take_succ_eq_append_getElem h, payload_append]
   simp [payload]
 
@@ -60,20 +60,20 @@ theorem read_honest (p : Nat) (sc : SC) (conn pre : Bytes) (size : Nat)
         rw [hconn]; exact List.take_left' hlen
       have hdrop : conn.drop sealedFrameSize = sealAll A k (c0 + p + 1) (sent.drop (p + 1)) := by
         rw [hconn]; exact List.drop_left' hlen
-      have ho : A.doOpen sc.recvKey sc.recvNonce (conn.take sealedFrameSize) = some (mkFrame sent[p].1 sent[p].2) := by
+      have ho : A.doOpen sc.recvKey sc.recvNonce (conn.take sealedFrameSize) = some (mkFrame sent[p]) := by
         rw [htake, h.key, h.nonce]; exact hC _ _
       have hc : c0 + p < maxUint64 := by omega
-      rw [read_accept A sc conn size (c0 + p) sent[p].1 sent[p].2 hb h1 h.nonce hc hfw.2 ho]
+      rw [read_accept A sc conn size (c0 + p) sent[p] hb h1 h.nonce hc hfw.2 ho]
       refine ⟨rfl, ⟨p + 1, ⟨hlt, h.key, ?_, hdrop⟩, ?_⟩, ?_⟩
       · show nonceOf (c0 + p + 1) = nonceOf (c0 + (p + 1))
         rw [Nat.add_assoc]
-      · show payload (sent.take (p + 1)) = pre ++ sent[p].1.take _ ++ sent[p].1.drop _
+      · show payload (sent.take (p + 1)) = pre ++ sent[p].take _ ++ sent[p].drop _
         rw [payload_take_succ sent p hlt, hpre, hb, List.append_nil, List.append_assoc, List.take_append_drop]
       · intro hs
-        show sent[p].1.take (min size sent[p].1.length) ≠ []
-        have hne : 0 < sent[p].1.length := List.length_pos_iff.2 hfw.1
+        show sent[p].take (min size sent[p].length) ≠ []
+        have hne : 0 < sent[p].length := List.length_pos_iff.2 hfw.1
         intro e
-        have : (sent[p].1.take (min size sent[p].1.length)).length = 0 := by rw [e]; rfl
+        have : (sent[p].take (min size sent[p].length)).length = 0 := by rw [e]; rfl
         rw [List.length_take] at this
         omega
   · -- served from the buffer
